@@ -184,9 +184,17 @@ def run_impl(p):
         twin, _ = _mk(p, shared)           # a second counter built from the SAME key / initial-value arrays, never counted into
         trace = []
         batches = _batches(p)
+        c4, _ = _mk(p)                     # counts the very same sample ARRAYS once more (they belong to the caller: count only reads them)
         for b in batches:
-            c.count(np.array(b, dtype=kd) if b else np.array([], dtype=kd))
+            arr = np.array(b, dtype=kd) if b else np.array([], dtype=kd)
+            before = arr.copy()
+            c.count(arr)
             trace.append(_totals(c, p, kd))
+            if not np.array_equal(arr, before):
+                raise AssertionError("count wrote into the caller's sample array")
+            c4.count(arr)
+        if [float(x) for x in _totals(c4, p, kd)] != [float(x) for x in _totals(c, p, kd)]:
+            raise AssertionError("counting the same sample arrays into a second counter gives other totals")
         # metamorphic: same multiset of samples, permuted and re-split
         rnd = random.Random(p["pseed"])
         alls = [s for b in batches for s in b]
